@@ -17,10 +17,12 @@
      HA s | i..                 array_deref                   -> ok k | oob d | nil
      HM n..                     mk_array (MK_ARRAY)           -> ok elems | oob d | size
      HMA n.. | i..              mk_array, array_deref         -> ok k | oob d | size
-     HR r | i..                 range_deref                   -> ok v.. | oob d | nil
-     HS s | r | i..             slice_array, slice_deref
-     HSS s | r1 | r2 | i..      slice_array, slice_slice, slice_deref
-     HRR r1 | r2 | i..          slice_range, range_deref
+   ranges are passed to the model as the VM holds them: flat vectors [from0 to0 from1 to1 ..] and
+   dims = length / 2 (the instruction's dims); the model's *_vec functions read slot d*2, d*2+1
+     HR r | i..                 range_deref_vec               -> ok v.. | oob d | nil
+     HS s | r | i..             (array, vector), slice_deref_vec
+     HSS s | r1 | .. | rk | i.. (array, vector), slice_slice_vec k-1 times, slice_deref_vec
+     HRR r1 | .. | rk | i..     slice_range_vec k-1 times, range_deref_vec
      HT chars | i               string_deref                  -> ok k | oob -1
      HU chars | from to         slice_string                  -> ok chars | oob -1
      HP s | s    HQ s | s       arr_addsub / arr_matmul       -> ok shape | size | nil
@@ -33,6 +35,7 @@ let z_of_int n = if n = 0 then Z0 else if n > 0 then Zpos (pos_of_int n) else Zn
 let rec int_of_pos = function XH -> 1 | XO p -> 2 * int_of_pos p | XI p -> 2 * int_of_pos p + 1
 let int_of_z = function Z0 -> 0 | Zpos p -> int_of_pos p | Zneg p -> - (int_of_pos p)
 
+let rec nat_of_int n = if n <= 0 then O else S (nat_of_int (n - 1))
 let zs l = List.map z_of_int l
 let ints l = String.concat " " (List.map (fun z -> string_of_int (int_of_z z)) l)
 
@@ -116,22 +119,38 @@ let run_line line =
        String.concat " " ("X" :: List.map one (nums (g 0)))
      | "HA" -> "HA " ^ show_res (fun k -> string_of_int (int_of_z k))
                  (array_deref (arr_of (shape (g 0))) (zs (nums (g 1))))
-     | "HR" -> "HR " ^ show_res ints (range_deref (Some (pairs (nums (g 0)))) (zs (nums (g 1))))
-     | "HS" ->
-       (match slice_array (arr_of (shape (g 0))) (Some (pairs (nums (g 1)))) with
-        | Exc e -> "HS " ^ show_exc e
-        | Ok s -> "HS " ^ show_res (fun k -> string_of_int (int_of_z k)) (slice_deref (Some s) (zs (nums (g 2)))))
-     | "HSS" ->
-       (match slice_array (arr_of (shape (g 0))) (Some (pairs (nums (g 1)))) with
-        | Exc e -> "HSS " ^ show_exc e
-        | Ok s ->
-          (match slice_slice (Some s) (Some (pairs (nums (g 2)))) with
-           | Exc e -> "HSS " ^ show_exc e
-           | Ok s2 -> "HSS " ^ show_res (fun k -> string_of_int (int_of_z k)) (slice_deref (Some s2) (zs (nums (g 3))))))
+     | "HR" ->
+       let v = zs (nums (g 0)) in
+       "HR " ^ show_res ints (range_deref_vec (nat_of_int (List.length v / 2)) (Some v) (zs (nums (g 1))))
+     | "HS" | "HSS" ->
+       (* groups: shape, r1, .., rk, idx *)
+       let n = List.length gs in
+       (match arr_of (shape (g 0)) with
+        | None -> cmd ^ " nil"
+        | Some dv ->
+          let v1 = zs (nums (g 1)) in
+          let dims = nat_of_int (List.length v1 / 2) in
+          let rec chain s k =
+            if k >= n - 1 then Ok s
+            else match slice_slice_vec dims (Some s) (Some (zs (nums (g k)))) with
+              | Ok s2 -> chain s2 (k + 1)
+              | Exc e -> Exc e in
+          (match chain { slv_arr = Some dv; slv_range = Some v1 } 2 with
+           | Exc e -> cmd ^ " " ^ show_exc e
+           | Ok s -> cmd ^ " " ^ show_res (fun k -> string_of_int (int_of_z k))
+                       (slice_deref_vec dims (Some s) (zs (nums (g (n - 1)))))))
      | "HRR" ->
-       (match slice_range (Some (pairs (nums (g 0)))) (Some (pairs (nums (g 1)))) with
+       let n = List.length gs in
+       let v1 = zs (nums (g 0)) in
+       let dims = nat_of_int (List.length v1 / 2) in
+       let rec chain v k =
+         if k >= n - 1 then Ok v
+         else match slice_range_vec dims (Some v) (Some (zs (nums (g k)))) with
+           | Ok v2 -> chain v2 (k + 1)
+           | Exc e -> Exc e in
+       (match chain v1 1 with
         | Exc e -> "HRR " ^ show_exc e
-        | Ok r -> "HRR " ^ show_res ints (range_deref (Some r) (zs (nums (g 2)))))
+        | Ok v -> "HRR " ^ show_res ints (range_deref_vec dims (Some v) (zs (nums (g (n - 1))))))
      | "HT" ->
        (match nums (g 1) with
         | [i] -> "HT " ^ show_res (fun k -> string_of_int (int_of_z k)) (string_deref (Some (zs (nums (g 0)))) (z_of_int i))
